@@ -1305,6 +1305,10 @@ ws_http_cb_listener(nni_ws *ws, nni_aio *aio)
 	nni_mtx_lock(&l->mtx);
 	nni_list_remove(&l->reply, ws);
 	if (nni_aio_result(aio) != 0) {
+		// ws_listener_stop may be waiting for the replies to drain.
+		if (nni_list_empty(&l->reply)) {
+			nni_cv_wake(&l->cv);
+		}
 		nni_mtx_unlock(&l->mtx);
 		ws_reap(ws);
 		return;
